@@ -62,6 +62,40 @@ def do_import(pid, src):
     return n
 
 
+def do_import_benign(pid, src):
+    n = 0
+    for f in sorted(os.listdir(src)):
+        m = re.match(r"patch_(R\w+)\.diff$", f)
+        if not m:
+            continue
+        tag = m.group(1)
+        meta_p = os.path.join(src, "meta_%s.json" % tag)
+        eq_p = os.path.join(src, "equiv_%s.py" % tag)
+        if not (os.path.exists(meta_p) and os.path.exists(eq_p)) or os.path.getsize(os.path.join(src, f)) == 0:
+            print("skip %s: incomplete" % f)
+            continue
+        try:
+            meta = json.load(open(meta_p))
+        except Exception as e:
+            meta = {"title": "unparsable meta: %s" % e}
+        slug = re.sub(r"[^a-z0-9]+", "-", (meta.get("title") or tag).lower()).strip("-")[:44] or tag
+        d = os.path.join(VERIF, "seeded", pid, "benign-%s-%s" % (tag.lower(), slug))
+        os.makedirs(d, exist_ok=True)
+        shutil.copy(os.path.join(src, f), os.path.join(d, "patch.diff"))
+        shutil.copy(eq_p, os.path.join(d, "demo.py"))
+        for extra in os.listdir(src):
+            # helper modules the equivalence scripts import from their own directory
+            if extra.endswith(".py") and not re.match(r"(equiv_R|demo_)", extra):
+                shutil.copy(os.path.join(src, extra), os.path.join(d, extra))
+        meta["property"] = pid
+        meta["kind"] = "benign"
+        meta["origin"] = "independent sub-agent asked for behaviour-preserving refactorings of the property's code (given only the property text and a scratch worktree)"
+        json.dump(meta, open(os.path.join(d, "meta.json"), "w"), indent=1)
+        print("imported", d)
+        n += 1
+    return n
+
+
 def run_checks(pids):
     out = {}
     for pid in pids:
@@ -91,6 +125,7 @@ def confirm(d, tests=False, pids=None):
             rcc, outc = sh("%s -m compileall -q commonroad" % PY, cwd=REPO)
             result["compiles"] = rcc == 0
             rc1, out1 = sh("%s %s" % (PY, os.path.join(d, "demo.py")), cwd="/tmp", env=demo_env, timeout=600)
+            result["_out1"] = out1
             result["demo_on_clean"] = {"exit": rc0, "tail": out0.strip().splitlines()[-1:] if out0.strip() else []}
             result["demo_on_changed"] = {"exit": rc1, "tail": [l for l in out1.splitlines() if l.startswith("VIOLATED")][:2] or out1.strip().splitlines()[-1:]}
             result["checks"] = run_checks(pids or ALL)
@@ -102,13 +137,24 @@ def confirm(d, tests=False, pids=None):
         sh("git -C %s clean -fdq -- commonroad" % REPO)
     if not clean_repo():
         print("WARNING: /repo not clean after restore")
-    if result.get("applies"):
+    if result.get("applies") and meta.get("kind") == "benign":
+        alarms = sorted(p for p, r in result["checks"].items() if r["exit"] == 1)
+        refused = sorted(p for p, r in result["checks"].items() if r["exit"] not in (0, 1))
+        result["false_alarms"] = alarms
+        result["refusals"] = refused
+        result["caught_by"] = alarms
+        result["analysis_errors"] = refused
+        result["equivalent_output"] = bool(out0.strip()) and out0 == result.pop("_out1", None)
+        result["confirmed"] = result["equivalent_output"]
+        result["caught_by_own_property"] = pid in alarms
+    elif result.get("applies"):
         caught = sorted(p for p, r in result["checks"].items() if r["exit"] == 1)
         broken = sorted(p for p, r in result["checks"].items() if r["exit"] not in (0, 1))
         result["caught_by"] = caught
         result["analysis_errors"] = broken
         result["confirmed"] = bool(rc0 == 0 and result["demo_on_changed"]["exit"] == 1)
         result["caught_by_own_property"] = pid in caught
+    result.pop("_out1", None)
     meta["confirmation"] = result
     json.dump(meta, open(meta_p, "w"), indent=1)
     return result
@@ -121,6 +167,8 @@ def main():
         return 2
     if a[0] == "import":
         do_import(a[1], a[2])
+    elif a[0] == "import-benign":
+        do_import_benign(a[1], a[2])
     elif a[0] == "confirm":
         r = confirm(a[1], tests="--tests" in a)
         print(json.dumps({k: v for k, v in (r or {}).items() if k != "checks"}, indent=1))
@@ -128,6 +176,19 @@ def main():
             for p, c in r["checks"].items():
                 if c["exit"] != 0:
                     print("  %s exit=%d rules=%s" % (p, c["exit"], c["rules"]))
+    elif a[0] == "report":
+        base = os.path.join(VERIF, "seeded")
+        print("| property | seeded change (origin: sub-agent) | kind | confirmed by demo | checks that fire | refused (exit 2) |")
+        print("|---|---|---|---|---|---|")
+        for pid in sorted(os.listdir(base)):
+            for name in sorted(os.listdir(os.path.join(base, pid))):
+                mp = os.path.join(base, pid, name, "meta.json")
+                if not os.path.exists(mp):
+                    continue
+                mt = json.load(open(mp))
+                c = mt.get("confirmation", {})
+                rules = "; ".join("%s %s" % (p, ",".join(r["rules"])) for p, r in sorted(c.get("checks", {}).items()) if r["exit"] == 1)
+                print("| %s | %s | %s | %s | %s | %s |" % (pid, (mt.get("title") or name).replace("|", "/")[:110], mt.get("kind", "break"), "yes" if c.get("confirmed") else "NO", rules or "-", ",".join(c.get("analysis_errors", [])) or "-"))
     elif a[0] == "all":
         rows = []
         base = os.path.join(VERIF, "seeded")
@@ -138,7 +199,8 @@ def main():
                     continue
                 r = confirm(d)
                 rows.append((pid, name, r))
-                print("%s %-55s confirmed=%s caught_by=%s own=%s" % (pid, name, r.get("confirmed"), ",".join(r.get("caught_by", [])), r.get("caught_by_own_property")))
+                kind = json.load(open(os.path.join(d, "meta.json"))).get("kind", "break")
+                print("%s %-6s %-55s confirmed=%s %s=%s refused=%s" % (pid, kind, name[:55], r.get("confirmed"), "alarms" if kind == "benign" else "caught_by", ",".join(r.get("caught_by", [])), ",".join(r.get("analysis_errors", []))))
         # restore evidence of the clean tree
         for pid in ALL:
             sh("./check %s" % pid, cwd=VERIF)
